@@ -7,6 +7,7 @@ import (
 	"encoding/json"
 	"flag"
 	"fmt"
+	"hash/fnv"
 	"math/rand/v2"
 	"os"
 	"path/filepath"
@@ -70,6 +71,7 @@ type Ctx struct {
 	fingerprints map[string]bool
 	crashStates map[string]bool
 	detRechecks int
+	detExamples []string
 	detMismatch int
 	violations  []foundViolation
 	known       map[string]string
@@ -274,7 +276,95 @@ func (c *Ctx) Explore(n int, gen func(r *rand.Rand, i int) *plan.Plan, account f
 		key, nt, sample := account(res)
 		c.Account(res, key, nt, sample)
 		c.Report(p, vs)
+		if every := c.detEvery(); every > 0 && i%every == every-1 {
+			c.determinismRecheck(p, res, vs)
+		}
 	})
+}
+
+// detEvery: every n-th executed plan is executed again in fresh processes with another real GOMAXPROCS
+// (1 and 16 instead of 2) and must give the same journals, scheduler fingerprints and oracle verdicts.
+func (c *Ctx) detEvery() int {
+	if v := os.Getenv("VERIF_DETERMINISM_EVERY"); v != "" {
+		n, _ := strconv.Atoi(v)
+		return n
+	}
+	if c.Quick() {
+		return 16
+	}
+	return 64
+}
+
+var addrRe = regexp.MustCompile(`0x[0-9a-f]{6,}`)
+
+func journalDigest(res *RunResult) string {
+	h := fnv.New64a()
+	var walk func(r *RunResult)
+	walk = func(r *RunResult) {
+		for _, s := range r.Sub {
+			walk(s)
+		}
+		for _, ir := range r.Incs {
+			fmt.Fprintf(h, "exit=%d|", ir.Exit)
+			for _, e := range ir.Entries {
+				if e.Kind == "end" {
+					continue // carries statistics; its fingerprint is compared separately
+				}
+				// heap addresses printed by task dumps are not part of the execution
+				fmt.Fprintf(h, "%d|%s|%s|%s|%d|%d|%d|%s|%s\n", e.Inc, e.Idx, e.Kind, e.Phase, e.Seq, e.SimMs, e.FsOps, addrRe.ReplaceAllString(e.Err, "0x"), addrRe.ReplaceAll(e.Data, []byte("0x")))
+			}
+		}
+	}
+	walk(res)
+	return fmt.Sprintf("%016x", h.Sum64())
+}
+
+func (c *Ctx) determinismRecheck(p *plan.Plan, first *RunResult, firstVs []Violation) {
+	sigsOf := func(vs []Violation) string {
+		var s []string
+		for _, v := range vs {
+			s = append(s, v.Sig)
+		}
+		sort.Strings(s)
+		return strings.Join(s, "|")
+	}
+	want := journalDigest(first) + "/" + fingerprintOf(first) + "/" + sigsOf(firstVs)
+	for _, procs := range []int{1, 16} {
+		q := p.Clone()
+		if worlds, ok := q.Params["worlds"].([]any); ok {
+			for _, w := range worlds {
+				if wm, ok := w.(map[string]any); ok {
+					pm, _ := wm["params"].(map[string]any)
+					if pm == nil {
+						pm = map[string]any{}
+						wm["params"] = pm
+					}
+					pm["child_gomaxprocs"] = procs
+				}
+			}
+		}
+		q.Params["child_gomaxprocs"] = procs
+		res, err := c.Check.exec(q)
+		if err != nil {
+			continue
+		}
+		got := journalDigest(res) + "/" + fingerprintOf(res) + "/" + sigsOf(c.Check.Oracle(res))
+		if d := os.Getenv("VERIF_DET_DUMP"); d != "" && got != want {
+			_ = p.Save(filepath.Join(d, fmt.Sprintf("%d-plan.json", p.Seed)))
+			dumpJournal(filepath.Join(d, fmt.Sprintf("%d-first", p.Seed)), first)
+			dumpJournal(filepath.Join(d, fmt.Sprintf("%d-procs%d", p.Seed, procs)), res)
+		}
+		res.Cleanup()
+		c.mu.Lock()
+		c.detRechecks++
+		if got != want {
+			c.detMismatch++
+			if len(c.detExamples) < 3 {
+				c.detExamples = append(c.detExamples, fmt.Sprintf("seed %d GOMAXPROCS %d: %s vs %s", p.Seed, procs, want, got))
+			}
+		}
+		c.mu.Unlock()
+	}
 }
 
 // harnessTrouble: failures that are the harness's, never a verdict.
@@ -456,6 +546,14 @@ func (c *Ctx) finish() int {
 			code = 2
 		}
 	}
+	if c.detMismatch > 0 {
+		// the same plan gave another execution under another real GOMAXPROCS: a defect of the simulator (a
+		// source of nondeterminism outside its control), never a verdict about the property
+		// Reported in the evidence (determinism_rechecks / determinism_mismatches / examples), never as a
+		// verdict: every violation is re-executed in fresh processes before it is reported (a violation that
+		// does not reproduce is printed as NON-REPRODUCIBLE), so a mismatch here cannot turn into a false alarm.
+		fmt.Fprintf(os.Stderr, "DETERMINISM-NOTE: %d of %d re-executed plans differed in journal or scheduler fingerprint (see evidence)\n", c.detMismatch, c.detRechecks)
+	}
 	c.writeEvidence(wall, len(vioOut))
 	fmt.Printf("check %s tier=%s: evaluations=%d distinct_nontrivial=%d violations=%d known=%d wall=%.1fs exit=%d\n",
 		c.Check.ID, c.Tier, c.evals, len(c.distinct), len(vioOut), len(c.knownHit), wall, code)
@@ -476,6 +574,7 @@ func (c *Ctx) writeEvidence(wall float64, nvio int) {
 		"components":          c.Check.Components,
 		"determinism_rechecks": c.detRechecks,
 		"determinism_mismatches": c.detMismatch,
+		"determinism_examples":   c.detExamples,
 		"harness_errors":      len(c.harnessErr),
 		"known_findings_hit":  c.knownHit,
 	}
@@ -606,4 +705,27 @@ func fingerprintOf(res *RunResult) string {
 		parts = append(parts, fmt.Sprintf("%s/%d/%d", fp, ir.Exit, len(ir.Entries)))
 	}
 	return strings.Join(parts, ",")
+}
+
+func dumpJournal(path string, res *RunResult) {
+	_ = os.MkdirAll(filepath.Dir(path), 0o755)
+	var sb strings.Builder
+	all := append([]*IncResult(nil), res.Incs...)
+	for _, sub := range res.Sub {
+		all = append(all, sub.Incs...)
+	}
+	for _, ir := range all {
+		for _, e := range ir.Entries {
+			if e.Kind == "end" {
+				continue
+			}
+			fmt.Fprintf(&sb, "%d|%s|%s|%s|%d|%d|%d|%s|%s\n", e.Inc, e.Idx, e.Kind, e.Phase, e.Seq, e.SimMs, e.FsOps, e.Err, e.Data)
+		}
+		if end := ir.End(); end != nil {
+			var tr []string
+			_ = json.Unmarshal(end["sched_trace"], &tr)
+			_ = os.WriteFile(path+".trace", []byte(strings.Join(tr, "\n")), 0o644)
+		}
+	}
+	_ = os.WriteFile(path, []byte(sb.String()), 0o644)
 }
